@@ -790,6 +790,17 @@ def bc_positions(sk, in_loop=False):
     return tot, out
 
 
+def _ends_in_open_if(st):
+    k = st[0]
+    if k == "if":
+        return True if st[3] is None else _ends_in_open_if(st[3])
+    if k == "for":
+        return _ends_in_open_if(st[4])
+    if k == "while":
+        return st[2][0] != "empty" and _ends_in_open_if(st[2])
+    return False        # blocks, do-while (body always braced), simple statements
+
+
 class _FlowBuild(_Build):
     def __init__(self, variant, unbraced, header="full"):
         super().__init__(variant)
@@ -813,8 +824,9 @@ class _FlowBuild(_Build):
             c = self.cond(counters)
             self.feat.add("else")
             t = self.build(sk[1], counters)
-            # an else-less if as the then-branch of if/else must be braced (dangling else, R1)
-            tw = ("block", t) if (len(t) == 1 and t[0][0] == "if" and t[0][3] is None) else self.wrap(t)
+            # a then-branch that ENDS in an else-less if - directly, or at the end of unbraced loop / else bodies - must be braced,
+            # or the else would attach to that inner if (dangling else, R1)
+            tw = ("block", t) if (len(t) == 1 and _ends_in_open_if(self.wrap(t))) else self.wrap(t)
             return [("if", c, tw, self.wrap(self.build(sk[2], counters)))]
         if k == "for":
             self.loops += 1
